@@ -165,6 +165,8 @@ def run_case(case, ctx):
         src = 'g.asm'
         ctx.write(src, text)
         ctx.write('g_inc.inc', inc)
+        os.makedirs(ctx.path('sub'), exist_ok=True)
+        ctx.write('sub/g_inc.inc', inc.replace('7,8', '9,10,11') + inc.split('\n')[0] + '\n')
         flags = []
         radix = rng.choice(RADIXES)
         share = rng.choice(SHARE)
@@ -335,11 +337,11 @@ def run_case(case, ctx):
     segnames = {'CODE': 1, 'DATA': 2, 'IDATA': 3, 'XDATA': 4, 'YDATA': 5, 'BITDATA': 6, 'IO': 7, 'REG': 8, 'ROMDATA': 9, 'EEDATA': 10}
     starts = set()
     for e in ev:
-        starts.add((int(e['seg']), os.path.basename(e.get('file', '')), int(e['line']), int(e['addr'], 16)))
+        starts.add((int(e['seg']), e.get('file', ''), int(e['line']), int(e['addr'], 16)))
     for e in a.trace:
         # reservations: a record boundary whose new start lies beyond the current program counter
         if e['k'] == 'N' and int(e['pass']) == last and 'pc' in e and int(e['start'], 16) != int(e['pc'], 16):
-            starts.add((int(e['seg']), os.path.basename(e.get('file', '')), int(e['line']), int(e['pc'], 16)))
+            starts.add((int(e['seg']), e.get('file', ''), int(e['line']), int(e['pc'], 16)))
     # a chunk may be split (BINCLUDE) or merged; line info is per code-bearing statement: accept the start of any chunk of that line
     insym = False
     nmap = 0
@@ -373,9 +375,13 @@ def run_case(case, ctx):
         if seg is not None and fil is not None:
             for m in re.finditer(r'(\d+):([0-9A-Fa-f]+)', raw):
                 line, addr = int(m.group(1)), int(m.group(2), 16)
-                fb = os.path.basename(fil)
+                fb = fil          # (the MAP and the trace name a file by the same string: the name it was opened under)
                 if (seg, fb, line, addr) in starts:
                     nmap += 1
+                elif any(s_ == seg and l_ == line and a_ == addr and os.path.basename(f_) == os.path.basename(fb) for s_, f_, l_, a_ in starts):
+                    other = [f_ for s_, f_, l_, a_ in starts if s_ == seg and l_ == line and a_ == addr][0]
+                    out.violate('map:entry-under-wrong-file', '%s: MAP lists %d:%X under file %s, that line/address belongs to %s' % (tag, line, addr, fb, other))
+                    break
                 elif any(s_ == seg and f_ == fb and l_ == line for s_, f_, l_, a_ in starts):
                     # that line of that file did produce code or a reservation in this segment, but nowhere at the stated address
                     out.violate('map:address-wrong-for-line', '%s: MAP entry %d:%X (file %s, segment %d), but that line starts at %s' % (
@@ -451,7 +457,7 @@ def gen_listing_program(rng):
         elif k == 3:
             L.append('\temit\t%d,%d' % (rng.randrange(100), rng.randrange(100)))
         elif k == 4:
-            L.append('\tinclude\t"g_inc.inc"')
+            L.append('\tinclude\t"%s"' % rng.choice(['g_inc.inc', 'g_inc.inc', 'sub/g_inc.inc']))
         elif k == 5 and cpu != '68000':
             L.append('\tphase\t%d' % rng.choice([0x4000, 0x2000]))
             n = 'ph%d' % i
@@ -469,7 +475,11 @@ def gen_listing_program(rng):
         else:
             L.append('\t%s\t%d' % (rop, 2 * rng.randrange(1, 9)))
     if names:
-        L.append('\tshared\t%s' % ','.join(rng.sample(names, min(len(names), 5))))
+        sh = '\tshared\t%s' % ','.join(rng.sample(names, min(len(names), 5)))
+        if rng.random() < 0.5:
+            L.append(sh)
+        else:
+            L.insert(2, sh)         # export list at the top: the symbols are defined further down
     if rng.random() < 0.2:
         # one very long physical line (longer than any fixed-size read buffer): still ONE line for everything that counts lines
         L.insert(rng.randrange(2, len(L)), '; ' + 'x' * rng.choice([1020, 1021, 1022, 1023, 1024, 1150, 1151, 1300, 2047, 2048, 5000]))
